@@ -779,10 +779,11 @@ def violation_class(v):
 def assert_pristine():
     """The coordinator must never have called into the library (it is the fresh-state template)."""
     from numdifftools import finite_difference, step_generators
-    if len(finite_difference.FD_RULES) != 0:
+    cache = getattr(finite_difference, 'FD_RULES', None)
+    if isinstance(cache, dict) and len(cache) != 0:
         raise RuntimeError('parent process is not pristine: FD_RULES is populated')
-    st = step_generators.one_step._state
-    if (st.method, st.n, st.order) != ('forward', 1, 2):
+    st = getattr(getattr(step_generators, 'one_step', None), '_state', None)
+    if st is not None and tuple(st[1:]) != ('forward', 1, 2):
         raise RuntimeError('parent process is not pristine: one_step was used')
 
 
